@@ -677,47 +677,69 @@ func (d *Datastore) runDeviationUpdate(ctx context.Context, dm map[string]sdcpb.
 	}
 
 	for _, upds := range intendedUpdates {
-		for _, upd := range upds {
-			path := strings.Join(upd.GetPath(), sep)
-			if _, exists := configPaths[path]; !exists {
-
-				// iv, err := upd.Value()
-				// if err != nil {
-				// 	log.Errorf("%s: failed to convert intent value: %v", d.Name(), err)
-				// 	continue
-				// }
-
-				path, err := d.schemaClient.ToPath(ctx, upd.GetPath())
+		if len(upds) == 0 {
+			continue
+		}
+		if _, exists := configPaths[strings.Join(upds[0].GetPath(), sep)]; exists {
+			continue
+		}
+		// the path is not part of the running config: the ruling intent is not applied,
+		// the lower precedence intents are overruled if they differ from it
+		intentsUpdates := d.readIntentsOfPath(ctx, upds[0].GetPath())
+		if len(intentsUpdates) == 0 {
+			continue
+		}
+		sort.Slice(intentsUpdates, func(i, j int) bool {
+			if intentsUpdates[i].Priority() == intentsUpdates[j].Priority() {
+				return intentsUpdates[i].TS() < intentsUpdates[j].TS()
+			}
+			return intentsUpdates[i].Priority() < intentsUpdates[j].Priority()
+		})
+		path, err := d.schemaClient.ToPath(ctx, intentsUpdates[0].GetPath())
+		if err != nil {
+			log.Error(err)
+			continue
+		}
+		scRsp, err := d.schemaClient.GetSchemaSdcpbPath(ctx, path)
+		if err != nil {
+			log.Errorf("%s: failed to get path schema: %v ", d.Name(), err)
+			continue
+		}
+		var rulingValue *sdcpb.TypedValue
+		for idx, intUpd := range intentsUpdates {
+			iv, err := intUpd.Value()
+			if err != nil {
+				log.Errorf("%s: failed to convert intent value: %v", d.Name(), err)
+				break
+			}
+			niv, err := utils.TypedValueToYANGType(iv, scRsp.GetSchema())
+			if err != nil {
+				log.Errorf("%s: failed to convert value to its YANG type: %v ", d.Name(), err)
+				break
+			}
+			rsp := &sdcpb.WatchDeviationResponse{
+				Name:   d.Name(),
+				Intent: intUpd.Owner(),
+				Event:  sdcpb.DeviationEvent_UPDATE,
+				Path:   path,
+			}
+			switch {
+			case idx == 0:
+				rulingValue = niv
+				rsp.Reason = sdcpb.DeviationReason_NOT_APPLIED
+				rsp.ExpectedValue = niv
+			case !utils.EqualTypedValues(rulingValue, niv):
+				rsp.Reason = sdcpb.DeviationReason_OVERRULED
+				rsp.ExpectedValue = niv
+				rsp.CurrentValue = rulingValue
+			default:
+				continue
+			}
+			for _, dc := range dm {
+				err = dc.Send(rsp)
 				if err != nil {
-					log.Error(err)
+					log.Errorf("%s: failed to send deviation: %v", d.Name(), err)
 					continue
-				}
-				// scRsp, err := d.getSchema(ctx, path)
-				// if err != nil {
-				// 	log.Errorf("%s: failed to get path schema: %v ", d.Name(), err)
-				// 	continue
-				// }
-				// niv, err := d.typedValueToYANGType(iv, scRsp.GetSchema())
-				// if err != nil {
-				// 	log.Errorf("%s: failed to convert value to its YANG type: %v ", d.Name(), err)
-				// 	continue
-				// }
-
-				rsp := &sdcpb.WatchDeviationResponse{
-					Name:          d.Name(),
-					Intent:        upd.Owner(),
-					Event:         sdcpb.DeviationEvent_UPDATE,
-					Reason:        sdcpb.DeviationReason_NOT_APPLIED,
-					Path:          path,
-					ExpectedValue: nil, // TODO this need to be fixed
-					CurrentValue:  nil,
-				}
-				for _, dc := range dm {
-					err = dc.Send(rsp)
-					if err != nil {
-						log.Errorf("%s: failed to send deviation: %v", d.Name(), err)
-						continue
-					}
 				}
 			}
 		}
